@@ -61,8 +61,27 @@ def judge(res, obs, case, probe=None):
     res.seen("max_steps_bucket", len(str(obs.get("steps", 0))))
 
 
+def vunit_case(rng):
+    """A valid-by-construction unit with one planted rule fault (drives the analyzer's rules and their diagnostics
+    deeper than random text can), sometimes with identifiers re-cased or a token mutation on top."""
+    import vgen
+    decls = vgen.VGen(rng).unit()
+    faults = list(vgen.plant_all(decls))
+    if faults and rng.random() < 0.85:
+        decls = rng.choice(faults)[2]
+    text = vgen.render_unit(decls)
+    if rng.random() < 0.3:
+        text = vgen.recase_identifiers(text, rng)
+    if rng.random() < 0.2:
+        toks = hostile.lex(text)
+        text = "".join(hostile.mutate(toks, rng, 1))
+    return text
+
+
 def gen_case(rng, i):
-    k = i % 6
+    k = i % 7
+    if k == 6:
+        return {"gen": "vunit", "text": vunit_case(rng)}
     if k == 5:
         return {"gen": "unicode", "text": hostile.unicode_case(rng)}
     if k == 0:
